@@ -305,6 +305,14 @@ def summarise_for(interp, node, st, lo, hi):
                 bv = T.Fresh.int("k")
                 body_k = z3.substitute(T.to_real(T.to_z3(tterm)), (i, bv)) if is_sym(tterm) else tterm
                 closed[n] = T.add(v0, T.make_sum(lo, i, bv, body_k) if is_sym(body_k) else T.mul(T.sub(i, lo), body_k))
+                if z3.is_int(m) and is_sym(closed[n]) and not z3.is_int(closed[n]):
+                    # integer counter: its closed form must have the counter's sort to stand for it in other effects
+                    # (a sum of integers: ToInt is exact)
+                    inc = z3.simplify(T.to_z3(tterm)) if is_sym(tterm) else tterm
+                    if isinstance(inc, int) or (is_sym(inc) and z3.is_int_value(inc)):
+                        closed[n] = T.add(v0, T.mul(T.sub(i, lo), inc if isinstance(inc, int) else inc.as_long()))
+                    else:
+                        closed[n] = z3.ToInt(closed[n])
                 unresolved.remove(n)
                 progress = True
                 continue
